@@ -89,8 +89,11 @@ def build(program: dict) -> dict:
                 nd["start"].insert(1, ("svc", "crasher", [("gate", "c"), ("crash",)]))
     if program.get("svc"):
         last = paths(spec)[-1][1]
-        body = {"owntd": [("owntd",), ("forever",)], "coc": [("owntd",), ("crash-on-cancel",)]}.get(program["svc"], [("forever",)])
-        last["prepare"].insert(1, ("svc", "bg", body))
+        if program["svc"] == "ta-raise":
+            last["prepare"].insert(1, ("svc-ta-raise", "bgta"))
+        else:
+            body = {"owntd": [("owntd",), ("forever",)], "coc": [("owntd",), ("crash-on-cancel",)]}.get(program["svc"], [("forever",)])
+            last["prepare"].insert(1, ("svc", "bg", body))
     if program["cli"]:
         if end["kind"] == "run-return":
             spec["run"] = [("td", "td:run"), ("gate", "r"), ("return", RUN_VALUES[end["value"]])]
@@ -145,6 +148,9 @@ class C15(E1Check):
                         continue
                     progs.append({"tree": tree, "cli": True, "svc": svc, "end": {"kind": "run-return", "value": vi}})
                 progs.append({"tree": tree, "cli": True, "svc": svc, "end": {"kind": "run-raise"}})
+                for vi in (0, 3, 7):
+                    # the root (CLI) component given by a reference string, as `asphalt run` gives it
+                    progs.append({"tree": tree, "cli": True, "svc": svc, "byref": True, "end": {"kind": "run-return", "value": vi}})
                 for cli in (False, True):
                     progs.append({"tree": tree, "cli": cli, "svc": svc, "gen": True, "end": {"kind": "signal", "sig": "SIGTERM"}})
                     progs.append({"tree": tree, "cli": cli, "svc": svc, "gen": True, "end": {"kind": "fail", "path": ps[-1], "phase": "start", "pos": "after"}})
@@ -166,6 +172,12 @@ class C15(E1Check):
                         # an exception escaping a service task after start-up propagates
                         for vi in (0, 3):
                             progs.append({"tree": tree, "cli": True, "svc": "coc", "end": {"kind": "run-return", "value": vi}})
+                    if svc:
+                        # a background service whose (asynchronous) teardown action fails after it has stopped the task: the documented
+                        # outcome of the ending is unaffected
+                        progs.append({"tree": tree, "cli": cli, "svc": "ta-raise", "end": {"kind": "signal", "sig": "SIGTERM"}})
+                        if cli:
+                            progs.append({"tree": tree, "cli": True, "svc": "ta-raise", "end": {"kind": "run-return", "value": 0}})
                     if svc:
                         # the background service has an asynchronous teardown callback on its own context
                         progs.append({"tree": tree, "cli": cli, "svc": "owntd", "end": {"kind": "signal", "sig": "SIGTERM"}})
@@ -202,6 +214,8 @@ class C15(E1Check):
         from asphalt.core import run_application
 
         spec = build(program)
+        if program.get("byref"):
+            spec["byref"] = True
         tree = Tree(env, spec)
         env.data["tree"] = tree
         env.data["spec"] = spec
@@ -225,7 +239,8 @@ class C15(E1Check):
             with warnings.catch_warnings():
                 warnings.simplefilter("ignore")
                 try:
-                    run_application(end["ref"] if end["kind"] == "badref" else tree.root_class, {}, backend=env.backend, backend_options=env.backend_options(),
+                    run_application(end["ref"] if end["kind"] == "badref" else tree.type_decl(spec, tree.root_class), {}, backend=env.backend,
+                                    backend_options=env.backend_options(),
                                     logging=None, start_timeout=5 if end["kind"] == "timeout" else 10)
                     env.data["outcome"] = ("return",)
                     env.log("RA-return")
